@@ -15,6 +15,7 @@ import Mahotas.Proofs.C13OraclesNum
 import Mahotas.Proofs.C13OraclesFloat
 import Mahotas.Proofs.C13Wrappers
 import Mahotas.Proofs.C13Rounded
+import Mahotas.Proofs.C13Perimeter
 import Mahotas.Proofs.Modes
 open Mahotas Mahotas.C13 Mahotas.C05
 
@@ -707,3 +708,32 @@ example : (sumRounded rne53 2 (([3, -5, 12].map (dy 3)).zip [1, 1, 0]))[1]? = so
   have hv : valuesOf (([3, -5, 12] : List Int).zip [1, 1, 0]) ((1 : Nat) : Int) = [3, -5] := by decide
   rw [hv] at h
   exact h
+
+/-! ## Round 4 — `labeled.perimeter` -/
+
+/-- **C13 (labeled.perimeter, the discrete part).** For a 2-D image with non-empty axes (any border mode and element handed
+to `bwperim`): the model of `perimeter` — `bwperim` through `fix_offset`, the 3×3 convolution with the mask
+`[[10,2,10],[2,1,2],[10,2,10]]` in `reflect` mode, `fullhistogram` (`max + 1` bins) and the sums of the first 34 bins per
+weight of the table `_perimeter_values` — yields exactly the numbers `[n1, n2, n3]` of perimeter pixels (per the proved
+`bwperimSpec`) that the direct rule classifies as weight 1 (`a ∈ {2,3}` edge neighbours on the perimeter and `d ≤ 2` diagonal
+ones), weight √2 (`(a,d) ∈ {(0,2),(1,3)}`) and weight (1+√2)/2 (`a = 1`, `d ∈ {1,2}`), neighbours taken by the mathematical
+`reflect` rule; every other pixel has weight 0 (in particular bins ≥ 34 — e.g. `a = 2, d = 3` — are dropped by the code).
+The returned float is `n1 + n2·√2 + n3·(1+√2)/2` evaluated in double (compared with a tolerance by the harness). -/
+theorem C13_perimeter_counts_spec (m : Mode) (shape : List Nat) (bw : List Int) (offs : List (List Int))
+    (hs : ∀ d ∈ shape, 0 < d) : perimeterCounts m shape bw offs = perimeterCountsSpec m shape bw offs :=
+  perimeterCounts_eq_spec m shape bw offs hs
+
+/-- **C13 (labeled.perimeter, the weight table).** Every histogram bin `c + 2a + 10d` the convolution can produce (`c ≤ 1`
+centre, `a ≤ 4` edge and `d ≤ 4` diagonal neighbours on the perimeter; the decomposition is unique because `c + 2a ≤ 9`) has
+in the code's table `[5,7,15,17,25,27] ↦ 1, [21,33] ↦ √2, [13,23] ↦ (1+√2)/2` exactly the class of the direct rule on
+`(c, a, d)`; a pixel off the perimeter (`c = 0`) never counts. -/
+theorem C13_perimeter_class_table (c a d : Nat) (hc : c ≤ 1) (ha : a ≤ 4) (hd : d ≤ 4) :
+    perimClass (c + 2 * a + 10 * d) = perimClassAD c a d ∧ perimClassAD 0 a d = 0 :=
+  ⟨perimClass_AD c a d hc ha hd, by unfold perimClassAD; simp⟩
+
+/-! non-vacuity: the table, the mask, and two small images (a 2 × 2 anti-diagonal pair seen through `reflect`; the centre of a 3 × 3 diagonal) -/
+example : perimClassAD 1 2 0 = 1 ∧ perimClassAD 1 1 3 = 2 ∧ perimClassAD 1 1 2 = 3 ∧ perimClassAD 1 2 3 = 0 ∧
+    perimClass 33 = 2 ∧ perimClass 35 = 0 ∧ perimMagic [1, -1] = 10 ∧ perimMagic [0, 1] = 2 ∧ perimMagic [0, 0] = 1 ∧
+    perimAt [2, 2] [true, false, false, true] 0 [1, 1] = 1 ∧ perimAt [2, 2] [true, false, false, true] 0 [-1, -1] = 1 ∧
+    perimCls [2, 2] [true, false, false, true] 0 = 1 ∧ perimCls [3, 3] [true, false, false, false, true, false, false, false, true] 4 = 2 := by
+  decide
